@@ -1,11 +1,30 @@
-(** * spec_apply: does an observed result of apply(rule, data) satisfy property p's specification? *)
+(** * spec_apply: does an observed result of apply(rule, data) satisfy the specification?
+      The observation is compared with the reference semantics [ref_eval]: the same value and
+      the same log lines when it succeeds, an error when it fails (which error, and what was
+      logged before failing, is not constrained). *)
 From Coq Require Import List ZArith NArith Bool.
-From JL Require Import Base.Json Base.Monad Spec.Specs.
+From JL Require Import Base.Json Base.Str Base.JsonText Base.Monad Spec.Specs Spec.OpSpecs Spec.RefEval.
 Import ListNotations.
 
+Fixpoint lines_eqb (a b : list str) : bool :=
+  match a, b with
+  | [], [] => true
+  | x :: a', y :: b' => str_eqb x y && lines_eqb a' b'
+  | _, _ => false
+  end.
+
+Definition matches_ref (rule data : value) (logs : list str) (res : option value) : bool :=
+  match ref_eval rule data, res with
+  | (t, Ok v), Some v' => value_same v v' && lines_eqb (map json_text t) logs
+  | (_, Err _), None => true
+  | _, _ => false
+  end.
+
 Definition spec_apply (p : prop_id) (rule data : value) (logs : list str) (res : option value) : bool :=
+  matches_ref rule data logs res &&
   match p with
   | P_C02 =>
+      (* a value that is not an operation evaluates to itself and writes nothing *)
       if is_operation rule then true
       else match res, logs with
            | Some v, [] => value_same v rule
